@@ -25,6 +25,9 @@ CHECKS = {
     "C03": dict(cat="proof", tech="Coq theorem on the regenerated main_alg + uniqueness by filtration induction + independent exact reference solver",
                 text="Theorems C03_gauge (+ _two_block), C03_is_least_action, C03_unique: the computed U satisfies the defining equations and any two least-action unitaries coincide (given a left inverse of the Sylvester operator on eliminated elements).",
                 note=ALG_NOTE),
+    "C05": dict(cat="proof", tech="Coq theorem on the regenerated nonhermitian_alg (translator) + exact differential oracle; similarity clauses _partial with known finding",
+                text="Theorems C05_inverse_l, C05_inverse_r, C05_gauge at full strength for every solution of the regenerated nonhermitian_alg in every BlockAlg (asymmetric masks included); C05_kept_partial / C05_eliminated_partial under the extra hypothesis that kept elements connect equal unperturbed energies - outside it the property is false on the unchanged tree (known finding C05-kept-distinct-energies, witness replayed each run). Coincidence with the Hermitian mode on Hermitian input: oracle only.",
+                note=ALG_NOTE),
     "C18": dict(cat="proof", tech="Coq theorems on a hand model of product_by_order/cauchy_dot_product tied by correspondence k_cauchydot (vm_compute)",
                 text="8 theorems: enumeration of splittings, product_by_order = Cauchy sum for all shapes/parameters/sentinel patterns, association of m factors, laziness, Hermitian index transposition; the Hermitian half-sum only for adjoint pairs (_partial) with a _refuted witness that is a KNOWN FINDING on the implementation; `one + x` raise is a second known finding.",
                 note=BASE_NOTE + "Values of a product live in one ring (rectangular blocks embed by zero padding)."),
